@@ -699,6 +699,9 @@ impl World {
                     }
                     let reader = ArrowArrayStreamReader::try_new(stream).map_err(|e| v("ffi_error", "ffi/stream_import", format!("ArrowArrayStreamReader::try_new failed: {e}")))?;
                     let mut got = 0usize;
+                    // the consumer may stop early: what it did not pull is released with the stream
+                    let pull = if ch.draw(3, "own.stream_stop_early") == 2 { ch.draw(meta.len() as u64, "own.stream_pull") as usize } else { meta.len() };
+                    let meta = meta[..pull].to_vec();
                     for (b, (region, off, len)) in reader.zip(meta.iter().copied()) {
                         let b = b.map_err(|e| v("ffi_error", "ffi/stream_next", format!("get_next failed: {e}")))?;
                         let a = b.column(0).as_any().downcast_ref::<Int32Array>().cloned().ok_or_else(|| v("ffi_error", "ffi/stream_next", "imported column has the wrong type".into()))?;
